@@ -88,6 +88,37 @@ MUTANTS = [
     ("c11_response_to_broadcast", "C11", [(P14,
         "            node_id=message.node_id,\n            child_id=message.child_id,\n            command=message.command,\n            message_type=Internal.I_ID_RESPONSE,",
         "            node_id=255,\n            child_id=message.child_id,\n            command=message.command,\n            message_type=Internal.I_ID_RESPONSE,")]),
+    ("c01_split_all_delimiters", "C01 C02", [(MSG,
+        "        list_data = in_data.rstrip().split(DELIMITER, len(self.fields) - 1)\n        if len(list_data) != len(self.fields):",
+        "        list_data = in_data.rstrip().split(DELIMITER)[: len(self.fields)]\n        if len(list_data) != len(self.fields):")]),
+    ("c01_payload_lstrip", "C01 C02", [(MSG,
+        "        return dict(zip(self.fields, list_data, strict=True))",
+        "        list_data[-1] = list_data[-1].lstrip()\n        return dict(zip(self.fields, list_data, strict=True))")]),
+    ("c01_dump_crlf", "C01", [(MSG,
+        "            string = f\"{DELIMITER.join([str(data[field]) for field in self.fields])}\\n\"",
+        "            string = f\"{DELIMITER.join([str(data[field]) for field in self.fields])}\\r\\n\"")]),
+    ("c01_type_abs", "C01 C02", [(MSG,
+        "        self.message_type = int(message_type)", "        self.message_type = abs(int(message_type))")]),
+    ("c02_revert_fieldcount", "C02 C03", [(MSG,
+        "        if len(list_data) != len(self.fields):\n            raise ValidationError(\n                f\"The message must have {len(self.fields)} fields \"\n                f\"separated by {DELIMITER}.\",\n            )\n        return dict(zip(self.fields, list_data, strict=True))",
+        "        return dict(zip(self.fields, list_data, strict=False))")]),
+    ("c02_node_max_254", "C02 C01", [("src/aiomysensors/model/const.py", "        max=BROADCAST_ID,", "        max=MAX_NODE_ID,")]),
+    ("c02_child255_set_allowed", "C02", [(MSG,
+        "        if child_id == SYSTEM_CHILD_ID:\n            valid_commands = protocol.VALID_SYSTEM_COMMAND_TYPES",
+        "        if child_id == SYSTEM_CHILD_ID and command != 1:\n            valid_commands = protocol.VALID_SYSTEM_COMMAND_TYPES")]),
+    ("c02_ack_validator_removed", "C02", [(MSG,
+        "    ack = fields.Int(required=True, validate=validate.OneOf((0, 1)))", "    ack = fields.Int(required=True)")]),
+    ("c02_idrequest_strict", "C02 C01", [(MSG,
+        "        and message_type in protocol.NODE_ID_REQUEST_TYPES\n    ):", "        and message_type in protocol.NODE_ID_REQUEST_TYPES\n        and child_id != 9\n    ):")]),
+    ("c02_stream_child_any", "C02", [(P14,
+        "STRICT_SYSTEM_COMMAND_TYPES = {\n    Command.internal.value,\n    Command.stream.value,\n}",
+        "STRICT_SYSTEM_COMMAND_TYPES = {\n    Command.internal.value,\n}")]),
+    ("c05_gt_instead_of_ge", "C05", [(PINIT, "            if major_minor >= AwesomeVersion(_protocol_version)", "            if major_minor > AwesomeVersion(_protocol_version)")]),
+    ("c05_sort_not_reversed", "C05", [(PINIT, "sorted(PROTOCOL_VERSIONS, reverse=True)", "sorted(PROTOCOL_VERSIONS)")]),
+    ("c05_store_before_resolve", "C05", [(GW,
+        "        protocol = get_protocol(value)\n        self._protocol_version = value\n", "        self._protocol_version = value\n        protocol = get_protocol(value)\n")]),
+    ("c05_internal_table_21_short", "C05 C19", [("src/aiomysensors/model/protocol/protocol_21.py",
+        "    I_REGISTRATION_RESPONSE = 27  # Register response from GW\n    I_DEBUG = 28  # Debug message\n", "    I_REGISTRATION_RESPONSE = 27  # Register response from GW\n")]),
     ("c09_revert_fix", "C09", [(P20,
         "            if message_buffer.set_messages.get(key) is buffer_message:\n                message_buffer.set_messages.pop(key)",
         "            message_buffer.set_messages.pop(key, None)")]),
